@@ -11,7 +11,7 @@ from .execu import Obligation
 from . import replay as RP
 from . import source
 
-CONTRACT_MODULES = ['contracts.game_game', 'contracts.sections', 'contracts.p8text', 'contracts.p8png']
+CONTRACT_MODULES = ['contracts.game_game', 'contracts.sections', 'contracts.p8text', 'contracts.p8png', 'contracts.p8scii']
 
 
 def registry(mods=None):
